@@ -360,6 +360,25 @@ theorem modeKeeper_emitRData (t : Nat) (d : RData) (hp : d.proved = true) : Mode
     · exact modeKeeper_emitU16 _
     · exact modeKeeper_emitU16 _
     · exact modeKeeper_emitName _
+  case soa m r serial refresh retry expire minimum =>
+    refine modeKeeper_withRdataBehavior (modeKeeper_seqAll _ ?_) _
+    intro f hf
+    simp only [List.mem_cons, List.not_mem_nil, or_false] at hf
+    rcases hf with rfl | rfl | rfl | rfl | rfl | rfl | rfl
+    · exact modeKeeper_emitName _
+    · exact modeKeeper_emitName _
+    all_goals exact modeKeeper_emitU32 _
+  case txt ss =>
+    refine modeKeeper_seqAll _ ?_
+    intro f hf
+    simp only [List.mem_map] at hf
+    obtain ⟨x, _, rfl⟩ := hf
+    exact modeKeeper_emitCharacterData x
+  case hinfo c o =>
+    refine modeKeeper_seqAll _ ?_
+    intro f hf
+    simp only [List.mem_cons, List.not_mem_nil, or_false] at hf
+    rcases hf with rfl | rfl <;> exact modeKeeper_emitCharacterData _
   case null d => exact modeKeeper_emitSlice d
   case unknown c d => exact modeKeeper_emitSlice d
 
